@@ -2,9 +2,10 @@
 SPECIFICATION Spec
 CONSTANTS
   MaxContrib = 2
-  Focus <- FocusAll
+  Focus <- FocusMain
   DEV_NestedSupertype = TRUE
   DEV_OwnerImportTwice = FALSE
   DEV_OwnerNaming = TRUE
+  DEV_WorldMerge = TRUE
 INVARIANTS Satisfies FailsExactly
 CHECK_DEADLOCK FALSE
